@@ -245,7 +245,7 @@ pub fn gen_scenario(seed: u64, large: u8) -> Scenario {
             continue;
         }
         // operations that meet a pool, a keyed map or an address get 3x the weight of the rest
-        let hot = op.large_ok || matches!(op.name, "stitch_triangulation" | "sweep_intersections" | "sweep_intersections_refs" | "interior_point" | "monotone_subdivision" | "par_iter_multipolygon" | "par_iter_multipoint_mls" | "unary_union_multi" | "intersection_poly_poly" | "constrained_triangulation_members" | "constrained_outer_triangulation" | "aggregates" | "geodesic_aggregates" | "concave_hull" | "k_nearest_concave_hull" | "outliers" | "transforms" | "traversals");
+        let hot = op.large_ok || matches!(op.name, "stitch_triangulation" | "sweep_intersections" | "sweep_intersections_refs" | "interior_point" | "monotone_subdivision" | "par_iter_multipolygon" | "par_iter_multipoint_mls" | "unary_union_multi" | "intersection_poly_poly" | "constrained_triangulation_members" | "constrained_outer_triangulation" | "aggregates" | "geodesic_aggregates" | "concave_hull" | "k_nearest_concave_hull" | "outliers" | "transforms" | "traversals" | "collection_ops" | "misc_per_type" | "convex_hull" | "quick_and_graham_hull");
         if large == 0 && !hot && !rng.chance(1, 3) {
             continue;
         }
@@ -274,6 +274,11 @@ pub fn gen_scenario(seed: u64, large: u8) -> Scenario {
         if large == 0 && matches!(op.name, "concave_hull" | "k_nearest_concave_hull" | "outliers") && rng.chance(1, 2) {
             fam = "cloud";
         }
+        // the cheap point-set operations: a quarter of the time on 4 000 - 70 000 points
+        let many_points = large == 0 && matches!(op.name, "convex_hull" | "quick_and_graham_hull" | "extremes" | "minimum_rotated_rect") && rng.chance(1, 2);
+        if many_points {
+            fam = "cloud";
+        }
         // the line-oriented operations: a third of the time on rings of 1 000 - 8 000 vertices
         let long_ring = large == 0 && matches!(op.name, "simplify" | "simplify_vw" | "densify_segmentize" | "traversals" | "transforms") && rng.chance(1, 3);
         if long_ring {
@@ -286,6 +291,9 @@ pub fn gen_scenario(seed: u64, large: u8) -> Scenario {
         let mut spec = inputs::gen_spec(&mut rng, fam, large);
         if long_ring {
             spec.size = *rng.pick(&[1030usize, 2100, 4200, 8300]);
+        }
+        if many_points {
+            spec.size = *rng.pick(&[4200usize, 8300, 16_500, 33_000, 40_000, 66_000, 66_000]);
         }
         // rings of several thousand vertices are for the linear-time operations only
         if fam == "circles" && spec.size > 2100 && !matches!(op.name, "simplify" | "simplify_vw" | "densify_segmentize" | "traversals" | "transforms" | "aggregates" | "geodesic_aggregates" | "convex_hull" | "quick_and_graham_hull" | "extremes" | "minimum_rotated_rect" | "earcut_triangles") {
